@@ -121,7 +121,7 @@ func dfs(name string, procc *runtime.Script, sPath *searchPath, p *param) error 
 			expr.PrivateData = cNg
 			if err := dfs(cName, cNg, sPath, p); err != nil {
 				if e, ok := err.(*errchain.PlError); ok {
-					return e.Copy().ChainAppend(procc.Name, p.namePos)
+					return e.Copy().ChainAppend(procc.Name, expr.NamePos)
 				}
 				return err
 			}
